@@ -1,1 +1,355 @@
-// ---- laws of C11 as lemmas over the spec functions (filled in below) -----------------------------
+// ---- the algebraic laws named in C11, as lemmas over the spec functions ------------------------------
+// The contracts of signed_shift / unsigned_shift / open / free_variables say that the real functions
+// compute s_shift / s_open / s_has_fv on the abstract view, so every law below transfers to the real
+// code (corollaries at the end).
+
+#[verifier::opaque]
+pub open spec fn s_hole_free(t: STerm) -> bool
+    decreases t
+{
+    match t {
+        STerm::Hole => false,
+        STerm::Var(_) => true,
+        STerm::Node(k, kids) => forall|i: int| #![trigger kids[i]] 0 <= i < kids.len() ==> s_hole_free(kids[i]),
+    }
+}
+
+pub proof fn lemma_ok_hole_free(t: STerm, c: nat, b: nat)
+    requires s_ok(t, c, b),
+    ensures s_hole_free(t),
+    decreases t
+{
+    reveal(s_ok);
+    reveal(s_hole_free);
+    match t {
+        STerm::Node(k, kids) => {
+            assert forall|i: int| 0 <= i < kids.len() implies s_hole_free(#[trigger] kids[i]) by {
+                lemma_ok_hole_free(kids[i], c + binds(k, kids.len(), i), b);
+            }
+        }
+        _ => {}
+    }
+}
+
+// A shift that succeeds was applied to a hole-free term and yields a hole-free term.
+pub proof fn law_shift_some_hole_free(t: STerm, c: nat, d: int)
+    requires s_shift(t, c, d) is Some,
+    ensures s_hole_free(t), s_hole_free(s_shift(t, c, d).unwrap()),
+    decreases t
+{
+    reveal(s_shift);
+    reveal(s_hole_free);
+    match t {
+        STerm::Node(k, kids) => {
+            assert(t->Node_1 == kids);
+            let r = s_shift(t, c, d).unwrap();
+            let rk = r->Node_1;
+            assert forall|i: int| 0 <= i < kids.len() implies s_hole_free(#[trigger] kids[i]) by {
+                law_shift_some_hole_free(kids[i], c + binds(k, kids.len(), i), d);
+            }
+            assert forall|i: int| 0 <= i < rk.len() implies s_hole_free(#[trigger] rk[i]) by {
+                law_shift_some_hole_free(kids[i], c + binds(k, kids.len(), i), d);
+            }
+        }
+        _ => {}
+    }
+}
+
+// LAW 1: shifting by zero is the identity.
+pub proof fn law_shift_zero(t: STerm, c: nat)
+    requires s_hole_free(t),
+    ensures s_shift(t, c, 0) == Some(t),
+    decreases t
+{
+    reveal(s_shift);
+    reveal(s_hole_free);
+    match t {
+        STerm::Node(k, kids) => {
+            assert forall|i: int| 0 <= i < kids.len() implies s_shift(#[trigger] kids[i], c + binds(k, kids.len(), i), 0) == Some(kids[i]) by {
+                law_shift_zero(kids[i], c + binds(k, kids.len(), i));
+            }
+            lemma_shift_node(k, kids, kids, c, 0);
+        }
+        _ => {}
+    }
+}
+
+// An upward shift of a hole-free term always succeeds.
+pub proof fn law_shift_up_total(t: STerm, c: nat, d: nat)
+    requires s_hole_free(t),
+    ensures s_shift(t, c, d as int) is Some,
+    decreases t
+{
+    reveal(s_shift);
+    reveal(s_hole_free);
+    match t {
+        STerm::Node(k, kids) => {
+            assert forall|i: int| 0 <= i < kids.len() implies s_shift(#[trigger] kids[i], c + binds(k, kids.len(), i), d as int) is Some by {
+                law_shift_up_total(kids[i], c + binds(k, kids.len(), i), d);
+            }
+        }
+        _ => {}
+    }
+}
+
+// LAW 2: shifts compose additively (an upward shift followed by any shift).
+pub proof fn law_shift_compose(t: STerm, c: nat, d1: nat, d2: int)
+    requires s_shift(t, c, d1 as int) is Some,
+    ensures s_shift(s_shift(t, c, d1 as int).unwrap(), c, d2) == s_shift(t, c, d1 + d2),
+    decreases t
+{
+    reveal(s_shift);
+    match t {
+        STerm::Node(k, kids) => {
+            assert(t->Node_1 == kids);
+            let u = s_shift(t, c, d1 as int).unwrap();
+            let uk = u->Node_1;
+            assert(uk.len() == kids.len());
+            assert forall|i: int| 0 <= i < kids.len() implies
+                s_shift(#[trigger] uk[i], c + binds(k, uk.len(), i), d2) == s_shift(kids[i], c + binds(k, kids.len(), i), d1 + d2) by {
+                assert(s_shift(kids[i], c + binds(k, kids.len(), i), d1 as int) is Some);
+                law_shift_compose(kids[i], c + binds(k, kids.len(), i), d1, d2);
+            }
+            let lhs = s_shift(u, c, d2);
+            let rhs = s_shift(t, c, d1 + d2);
+            assert(u->Node_1 == uk);
+            if forall|i: int| #![trigger kids[i]] 0 <= i < kids.len() ==> s_shift(kids[i], c + binds(k, kids.len(), i), d1 + d2) is Some {
+                assert forall|i: int| 0 <= i < uk.len() implies s_shift(#[trigger] uk[i], c + binds(k, uk.len(), i), d2) is Some by {
+                    assert(s_shift(kids[i], c + binds(k, kids.len(), i), d1 + d2) is Some);
+                }
+                assert(lhs is Some);
+                assert(rhs is Some);
+                assert(lhs.unwrap()->Node_1 =~= rhs.unwrap()->Node_1);
+            } else {
+                let i = choose|i: int| 0 <= i < kids.len() && !(s_shift(#[trigger] kids[i], c + binds(k, kids.len(), i), d1 + d2) is Some);
+                assert(!(s_shift(uk[i], c + binds(k, uk.len(), i), d2) is Some));
+                assert(lhs is None);
+                assert(rhs is None);
+            }
+        }
+        _ => {}
+    }
+}
+
+// LAW 3: a downward shift undoes an upward one.
+pub proof fn law_shift_undo(t: STerm, c: nat, d: nat)
+    requires s_hole_free(t),
+    ensures
+        s_shift(t, c, d as int) is Some,
+        s_shift(s_shift(t, c, d as int).unwrap(), c, -(d as int)) == Some(t),
+{
+    law_shift_up_total(t, c, d);
+    law_shift_compose(t, c, d, -(d as int));
+    law_shift_zero(t, c);
+}
+
+// LAW 4: a downward shift fails exactly when a variable would become unbound, i.e. when some free
+// variable (relative to the cutoff) is smaller than the amount.
+pub proof fn law_shift_down_fails_iff(t: STerm, c: nat, d: nat)
+    requires s_hole_free(t),
+    ensures s_shift(t, c, -(d as int)) is None <==> exists|x: nat| #[trigger] s_has_fv(t, c, x) && x < d,
+    decreases t
+{
+    reveal(s_shift);
+    reveal(s_hole_free);
+    reveal(s_has_fv);
+    match t {
+        STerm::Node(k, kids) => {
+            assert(t->Node_1 == kids);
+            assert forall|i: int| 0 <= i < kids.len() implies
+                (s_shift(#[trigger] kids[i], c + binds(k, kids.len(), i), -(d as int)) is None <==> exists|x: nat| #[trigger] s_has_fv(kids[i], c + binds(k, kids.len(), i), x) && x < d) by {
+                law_shift_down_fails_iff(kids[i], c + binds(k, kids.len(), i), d);
+            }
+            if s_shift(t, c, -(d as int)) is None {
+                let i = choose|i: int| 0 <= i < kids.len() && !(s_shift(#[trigger] kids[i], c + binds(k, kids.len(), i), -(d as int)) is Some);
+                let x = choose|x: nat| #[trigger] s_has_fv(kids[i], c + binds(k, kids.len(), i), x) && x < d;
+                assert(s_has_fv(t, c, x) && x < d);
+            }
+            if exists|x: nat| #[trigger] s_has_fv(t, c, x) && x < d {
+                let x = choose|x: nat| #[trigger] s_has_fv(t, c, x) && x < d;
+                let i = choose|i: int| #![trigger kids[i]] 0 <= i < kids.len() && s_has_fv(kids[i], c + binds(k, kids.len(), i), x);
+                assert(s_has_fv(kids[i], c + binds(k, kids.len(), i), x) && x < d);
+                assert(s_shift(kids[i], c + binds(k, kids.len(), i), -(d as int)) is None);
+            }
+        }
+        STerm::Var(i) => {
+            if i >= c && i - (d as int) < c {
+                assert(s_has_fv(t, c, (i - c) as nat) && (i - c) < d);
+            }
+        }
+        _ => {}
+    }
+}
+
+// LAW 5: opening a term in which the variable does not occur merely lowers the indices above it.
+// (i is the index being replaced at this depth, dd <= i the number of binders crossed so far.)
+pub proof fn law_open_absent(t: STerm, i: nat, dd: nat, u: STerm, s: nat)
+    requires
+        s_hole_free(t),
+        dd <= i,
+        !s_has_fv(t, dd, (i - dd) as nat),
+    ensures
+        s_shift(t, i, -1) == Some(s_open(t, i, u, s)),
+    decreases t
+{
+    reveal(s_shift);
+    reveal(s_hole_free);
+    reveal(s_has_fv);
+    reveal(s_open);
+    match t {
+        STerm::Node(k, kids) => {
+            assert(t->Node_1 == kids);
+            let r = s_open(t, i, u, s);
+            let rk = r->Node_1;
+            assert(rk.len() == kids.len());
+            assert forall|j: int| 0 <= j < kids.len() implies s_shift(#[trigger] kids[j], i + binds(k, kids.len(), j), -1) == Some(rk[j]) by {
+                let b = binds(k, kids.len(), j);
+                assert(!s_has_fv(kids[j], dd + b, (i - dd) as nat));
+                law_open_absent(kids[j], i + b, dd + b, u, s + b);
+            }
+            lemma_shift_node(k, kids, rk, i, -1);
+        }
+        _ => {}
+    }
+}
+
+// Free variables after an upward shift by s + dl of a term sitting under b binders of its own, seen from
+// cutoff b + dl: exactly the old ones, raised by s.
+pub proof fn law_fv_shift(t: STerm, b: nat, dl: nat, s: nat, x: nat)
+    requires s_hole_free(t),
+    ensures
+        s_shift(t, b, (s + dl) as int) is Some,
+        s_has_fv(s_shift(t, b, (s + dl) as int).unwrap(), b + dl, x) <==> (x >= s && s_has_fv(t, b, (x - s) as nat)),
+    decreases t
+{
+    reveal(s_shift);
+    reveal(s_hole_free);
+    reveal(s_has_fv);
+    law_shift_up_total(t, b, s + dl);
+    match t {
+        STerm::Node(k, kids) => {
+            assert(t->Node_1 == kids);
+            let r = s_shift(t, b, (s + dl) as int).unwrap();
+            let rk = r->Node_1;
+            assert(rk.len() == kids.len());
+            assert(r->Node_1 == rk);
+            assert forall|j: int| 0 <= j < kids.len() implies
+                (s_has_fv(#[trigger] rk[j], b + dl + binds(k, rk.len(), j), x) <==> (x >= s && s_has_fv(kids[j], b + binds(k, kids.len(), j), (x - s) as nat))) by {
+                law_fv_shift(kids[j], b + binds(k, kids.len(), j), dl, s, x);
+            }
+            if s_has_fv(r, b + dl, x) {
+                let j = choose|j: int| #![trigger rk[j]] 0 <= j < rk.len() && s_has_fv(rk[j], b + dl + binds(k, rk.len(), j), x);
+                assert(s_has_fv(kids[j], b + binds(k, kids.len(), j), (x - s) as nat));
+            }
+            if x >= s && s_has_fv(t, b, (x - s) as nat) {
+                let j = choose|j: int| #![trigger kids[j]] 0 <= j < kids.len() && s_has_fv(kids[j], b + binds(k, kids.len(), j), (x - s) as nat);
+                assert(s_has_fv(rk[j], b + dl + binds(k, rk.len(), j), x));
+            }
+        }
+        _ => {}
+    }
+}
+
+// LAW 6: the free variables of the result of opening are exactly those predicted: the free variables
+// of t other than the replaced one (those above it lowered by one), plus -- if the replaced variable
+// occurs -- the free variables of the inserted term raised by s.   (dl = binders crossed so far.)
+pub proof fn law_fv_open(t: STerm, j: nat, dl: nat, u: STerm, s: nat, x: nat)
+    requires s_hole_free(t), s_hole_free(u),
+    ensures
+        s_has_fv(s_open(t, j + dl, u, s + dl), dl, x) <==> (
+            (x < j && s_has_fv(t, dl, x))
+            || (x >= j && s_has_fv(t, dl, x + 1))
+            || (s_has_fv(t, dl, j) && x >= s && s_has_fv(u, 0, (x - s) as nat))),
+    decreases t
+{
+    reveal(s_hole_free);
+    reveal(s_has_fv);
+    reveal(s_open);
+    match t {
+        STerm::Node(k, kids) => {
+            assert(t->Node_1 == kids);
+            let r = s_open(t, j + dl, u, s + dl);
+            let rk = r->Node_1;
+            assert(r->Node_1 == rk);
+            assert(rk.len() == kids.len());
+            assert forall|i: int| 0 <= i < kids.len() implies
+                (s_has_fv(#[trigger] rk[i], dl + binds(k, rk.len(), i), x) <==> (
+                    (x < j && s_has_fv(kids[i], dl + binds(k, kids.len(), i), x))
+                    || (x >= j && s_has_fv(kids[i], dl + binds(k, kids.len(), i), x + 1))
+                    || (s_has_fv(kids[i], dl + binds(k, kids.len(), i), j) && x >= s && s_has_fv(u, 0, (x - s) as nat)))) by {
+                let b = binds(k, kids.len(), i);
+                law_fv_open(kids[i], j, dl + b, u, s, x);
+                assert(rk[i] == s_open(kids[i], j + dl + b, u, s + dl + b));
+            }
+            if s_has_fv(r, dl, x) {
+                let i = choose|i: int| #![trigger rk[i]] 0 <= i < rk.len() && s_has_fv(rk[i], dl + binds(k, rk.len(), i), x);
+                let b = binds(k, kids.len(), i);
+                if x < j && s_has_fv(kids[i], dl + b, x) { assert(s_has_fv(t, dl, x)); }
+                else if x >= j && s_has_fv(kids[i], dl + b, x + 1) { assert(s_has_fv(t, dl, x + 1)); }
+                else { assert(s_has_fv(kids[i], dl + b, j)); assert(s_has_fv(t, dl, j)); }
+            }
+            if x < j && s_has_fv(t, dl, x) {
+                let i = choose|i: int| #![trigger kids[i]] 0 <= i < kids.len() && s_has_fv(kids[i], dl + binds(k, kids.len(), i), x);
+                assert(s_has_fv(rk[i], dl + binds(k, rk.len(), i), x));
+            }
+            if x >= j && s_has_fv(t, dl, x + 1) {
+                let i = choose|i: int| #![trigger kids[i]] 0 <= i < kids.len() && s_has_fv(kids[i], dl + binds(k, kids.len(), i), x + 1);
+                assert(s_has_fv(rk[i], dl + binds(k, rk.len(), i), x));
+            }
+            if s_has_fv(t, dl, j) && x >= s && s_has_fv(u, 0, (x - s) as nat) {
+                let i = choose|i: int| #![trigger kids[i]] 0 <= i < kids.len() && s_has_fv(kids[i], dl + binds(k, kids.len(), i), j);
+                assert(s_has_fv(rk[i], dl + binds(k, rk.len(), i), x));
+            }
+        }
+        STerm::Var(v) => {
+            if v == j + dl {
+                law_fv_shift(u, 0, dl, s, x);
+                assert(s_raise(u, s + dl) == s_shift(u, 0, (s + dl) as int).unwrap());
+            }
+        }
+        _ => {}
+    }
+}
+
+// ---- transfer to the real code: what the contracts + laws say about the real functions ---------------
+// (exec functions calling the real functions; Verus proves the asserted relations from the contracts)
+
+fn corollary_shift_compose<'a>(t: &Term<'a>, c: usize, a: usize, b: usize) -> (r: (Term<'a>, Term<'a>))
+    requires
+        s_ok(view(*t), c as nat, (BOUND() / 2) as nat),
+        a < BOUND() / 4,
+        b < BOUND() / 4,
+    ensures
+        // shifting by a and then by b gives the same term (up to names/ranges) as shifting by a + b
+        view(r.0) == view(r.1),
+{
+    proof { lemma_ok_weaken(view(*t), c as nat, (BOUND() / 2) as nat, c as nat, BOUND() as nat); }
+    let t1 = unsigned_shift(t, c, a);
+    proof {
+        lemma_ok_shift(view(*t), c as nat, (BOUND() / 2) as nat, c as nat, a as nat);
+        lemma_ok_weaken(view(t1), c as nat, (BOUND() / 2 + a) as nat, c as nat, BOUND() as nat);
+        law_shift_compose(view(*t), c as nat, a as nat, b as int);
+    }
+    let t2 = unsigned_shift(&t1, c, b);
+    let t3 = unsigned_shift(t, c, a + b);
+    (t2, t3)
+}
+
+fn corollary_shift_undo<'a>(t: &Term<'a>, c: usize, a: usize) -> (r: Option<Term<'a>>)
+    requires
+        s_ok(view(*t), c as nat, (BOUND() / 2) as nat),
+        a < BOUND() / 4,
+    ensures
+        // a downward shift undoes an upward one
+        r is Some && view(r->Some_0) == view(*t),
+{
+    proof { lemma_ok_weaken(view(*t), c as nat, (BOUND() / 2) as nat, c as nat, BOUND() as nat); }
+    let t1 = unsigned_shift(t, c, a);
+    proof {
+        lemma_ok_shift(view(*t), c as nat, (BOUND() / 2) as nat, c as nat, a as nat);
+        lemma_ok_weaken(view(t1), c as nat, (BOUND() / 2 + a) as nat, c as nat, BOUND() as nat);
+        lemma_ok_hole_free(view(*t), c as nat, BOUND() as nat);
+        law_shift_undo(view(*t), c as nat, a as nat);
+    }
+    signed_shift(&t1, c, -(a as isize))
+}
